@@ -110,6 +110,17 @@ CHECKS["C04"] = dict(
          "checks where their measures are driven; this check drives class Network.",
     ref="6/C04")
 
+CHECKS["C11"] = dict(
+    technique="TLA+ sub-block definitions (Defs_Interacting) + TLC-enumerated graphs x ordered pairs of disjoint node lists replayed on InteractingNetworks + TLC trace validation (Val_C11)",
+    text="Gen_C11 enumerates every undirected graph up to NU nodes (directed up to ND) with every ordered pair of disjoint non-empty "
+         "node sets (content-derived pairs beyond NB nodes), each list in an unsorted order, weights over {1,2,3}; all 45 cross_/internal_/"
+         "nsi_cross_/nsi_internal_ methods are observed for (G1,G2), (G2,G1) and (all,all) and TLC decides Def (each measure equals its "
+         "definition on the sub-blocks taken in list order), DenseEqSparse, SwapSym and WholeLimit, reporting every failing site.",
+    note="Clustering-type cross measures are defined on undirected networks only; 0/0 cases are withdrawn; "
+         "internal_global_clustering has no sub-block definition (library averages whole-network clustering) and is covered by "
+         "WholeLimit only; CoupledClimateNetwork wrappers are not driven yet.",
+    ref="6/C11")
+
 NOT_APPLICABLE = {
     "C20": "memory safety of compiled kernels is a property of concrete addresses, not of abstract state a TLA+ "
            "specification maintains; nothing binds a PlusCal transcription of index arithmetic to the compiled code "
